@@ -85,7 +85,7 @@ def run_table(inp):
     low = np.array(inp["low"], dtype=float)
     high = low + np.array(inp["w"], dtype=float)
     npt = np.array(inp["npt"], dtype=int)
-    X, upper = points(inp)
+    X, _ = points(inp)
     n = X.shape[1]
     one = lambda i: X[:, i:i + 1]  # noqa: E731
 
@@ -97,14 +97,13 @@ def run_table(inp):
     gstd = []
     if lin:
         g = [[None] * P for _ in range(n)]
-        inner = np.flatnonzero(~upper)
         for ax in range(P):
-            # points with no coordinate on the upper faces in one vectorised call, the others one by one
-            col = column(safe(lambda: t.gradient(X[:, inner].copy(), ax)), inner.size) if inner.size else []
-            for j, i in enumerate(inner):
-                g[i][ax] = col[j]
-            for i in np.flatnonzero(upper):
-                g[i][ax] = column(safe(lambda: t.gradient(one(i).copy(), ax)), 1)[0]
+            # the whole closed box (upper faces included) in one vectorised call; point by point if that call fails
+            col = column(safe(lambda: t.gradient(X.copy(), ax)), n)
+            if any(v is None for v in col):
+                col = [column(safe(lambda i=i: t.gradient(one(i).copy(), ax)), 1)[0] for i in range(n)]
+            for i in range(n):
+                g[i][ax] = col[i]
         gstd = g
 
     # ---- adaptive table (queried at the points aq, in that order)
@@ -209,16 +208,6 @@ def judge(ctx, cases, raws):
         ctx.violation(v["clause"], dict(inp=inp, bad=bad, bad_ks=ks),
                       f"P={inp['P']} low={inp['low']} w={inp['w']} npt={inp['npt']} coef={inp['coef']} mode={inp['mode']} "
                       f"{len(bad)}/{len(inp['aq'] if ada else inp['qs'])} queries bad, first x={[str(z) for z in x0]} returned {got}")
-
-
-def upper_boundary_only(r):
-    """known-finding matcher: the standard table's gradient fails only at query points with a coordinate on the
-    upper end of the box (k_i = D)"""
-    D = r["inp"]["D"]
-    return r["clause"] == "GradExact" and len(r["bad_ks"]) > 0 and all(any(k == D for k in ks) for ks in r["bad_ks"])
-
-
-MATCHERS = {"grad_upper_boundary": upper_boundary_only}
 
 
 def run(ctx):
